@@ -427,4 +427,238 @@ theorem traceSpans_restrict (script : Script) (tr : Bytes) (htr : φ tr = true) 
   exact this
 end
 
+/-! ### rows of a statement as `TraceOut`s -/
+theorem rowOut_of_take5 (r : Row) (t : TraceOut) (h : r.take 5 = t.row) : rowOut r = some t := by
+  have hr : r = t.row ++ r.drop 5 := by rw [← h, List.take_append_drop]
+  have hget : ∀ n v, t.row.lookup n = some v → r.get n = v := by
+    intro n v hv
+    rw [hr, Row.get, List.lookup_append, hv]; rfl
+  obtain ⟨tid, sids, durs, tss, st⟩ := t
+  have h1 := hget "trace_id" (.str tid) rfl
+  have h2 := hget "span_id" (.strs sids) rfl
+  have h3 := hget "duration" (.tuples (durs.map (fun i => [Atom.int i]))) rfl
+  have h4 := hget "timestamp_ns" (.tuples (tss.map (fun i => [Atom.int i]))) rfl
+  have h5 := hget "start_time_unix_nano" (.int st) rfl
+  have hfm : ∀ (f : List Atom → Option Int), (∀ i, f [Atom.int i] = some i) → ∀ l : List Int,
+      (l.map (fun i => [Atom.int i])).filterMap f = l := by
+    intro f hf l; induction l with
+    | nil => rfl
+    | cons x xs ih => simp [hf, ih]
+  simp only [rowOut, h1, h2, h3, h4, h5]
+  rw [hfm _ (fun i => rfl) durs, hfm _ (fun i => rfl) tss]
+
+theorem filterMap_rowOut (rows : Table) (outs : List TraceOut) (h : rows.map (fun r => r.take 5) = outs.map TraceOut.row) :
+    rows.filterMap rowOut = outs := by
+  induction rows generalizing outs with
+  | nil => cases outs with
+    | nil => rfl
+    | cons x xs => simp at h
+  | cons r rs ih =>
+    cases outs with
+    | nil => simp at h
+    | cons t ts =>
+      simp only [List.map_cons, List.cons.injEq] at h
+      simp only [List.filterMap_cons, rowOut_of_take5 r t h.1, ih ts h.2]
+
+/-! ### traces that a script describes are traces of the index -/
+theorem groups_nonempty : ∀ (script : Script), ∀ g ∈ groups script, g ≠ []
+  | [], g, h => by simp [groups] at h
+  | (s, .none) :: _, g, h => by simp [groups] at h; subst h; simp
+  | (s, .or) :: rest, g, h => by
+    simp only [groups, List.mem_cons] at h
+    rcases h with rfl | h
+    · simp
+    · exact groups_nonempty rest g h
+  | (s, .and) :: rest, g, h => by
+    simp only [groups] at h
+    cases hg : groups rest with
+    | nil => rw [hg] at h; simp at h; subst h; simp
+    | cons g2 gs2 =>
+      rw [hg] at h
+      simp only [List.mem_cons] at h
+      rcases h with rfl | h
+      · simp
+      · exact groups_nonempty rest g (by rw [hg]; exact List.mem_cons_of_mem _ h)
+
+theorem traceMatches_traceId (o : Oracles) (ao : AggOracles) (c : Ctx) (d : TraceDb) (script : Script) (tr : Bytes)
+    (h : traceMatches o ao c d script tr = true) : tr ∈ d.attrs.map (·.traceId) := by
+  simp only [traceMatches, scriptHolds, List.any_eq_true] at h
+  obtain ⟨g, hg, hall⟩ := h
+  obtain ⟨s, hs⟩ := List.exists_mem_of_ne_nil g (groups_nonempty script g hg)
+  have hsm : selMatches o ao c d s tr = true := List.all_eq_true.mp hall s hs
+  unfold selMatches at hsm
+  cases he : s.attrs with
+  | none => rw [he] at hsm; simp at hsm
+  | some e =>
+    rw [he] at hsm
+    simp only [Bool.and_eq_true, Bool.not_eq_true'] at hsm
+    have hne : matchedSpans o c d e tr ≠ [] := by
+      intro h0; rw [h0] at hsm; simp at hsm
+    obtain ⟨k, hk⟩ := List.exists_mem_of_ne_nil _ hne
+    simp only [matchedSpans, List.mem_filter, Bool.and_eq_true, beq_iff_eq] at hk
+    obtain ⟨hks, hkt, _⟩ := hk
+    simp only [spans, mem_dedup, List.mem_map, List.mem_filter] at hks
+    obtain ⟨a, ⟨ha, _⟩, hak⟩ := hks
+    exact List.mem_map.mpr ⟨a, ha, by rw [← hkt, ← hak]; rfl⟩
+
+theorem IsTopN.congrOn {rec rec' : Bytes → Int} {P P' : Bytes → Prop} {n : Nat} {K : List Bytes} (h : IsTopN rec' P' n K)
+    (hP : ∀ t, P' t ↔ P t) (hrec : ∀ t, P t → rec' t = rec t) : IsTopN rec P n K := by
+  refine ⟨h.nodup, fun k hk => (hP k).mp (h.sound k hk), h.atMost, ?_, ?_⟩
+  · intro m hm hmK
+    obtain ⟨h1, h2⟩ := h.most m ((hP m).mpr hm) hmK
+    refine ⟨h1, fun k hk => ?_⟩
+    rw [← hrec m hm, ← hrec k ((hP k).mp (h.sound k hk))]
+    exact h2 k hk
+  · refine List.Pairwise.imp_of_mem ?_ h.sorted
+    intro a b ha hb hab
+    rw [← hrec a ((hP a).mp (h.sound a ha)), ← hrec b ((hP b).mp (h.sound b hb))]
+    exact hab
+
+/-! ### which traces `assemble` returns -/
+theorem mem_keptSpans (K : List (Bytes × List Bytes)) (S : List SpanRow) (s : SpanRow) :
+    s ∈ keptSpans K S ↔ s ∈ S ∧ s.traceId ∈ K.map (·.1) ∧ ∃ k ∈ K, k.1 = s.traceId ∧ s.spanId ∈ k.2 := by
+  simp only [keptSpans, List.mem_filter, Bool.and_eq_true, List.contains_iff_mem, tidsOf, pairsFlat, List.mem_flatMap, List.mem_map]
+  constructor
+  · rintro ⟨hs, ht, k, hk, v, hv, heq⟩
+    injection heq with h1 h2
+    exact ⟨hs, ht, k, hk, h1, by rw [← h2]; exact hv⟩
+  · rintro ⟨hs, ht, k, hk, h1, h2⟩
+    exact ⟨hs, ht, k, hk, s.spanId, h2, by rw [h1]⟩
+
+/-- the traces `assemble` returns are the traces of `K` when every one of them has a selected span in the span table
+    and `K` fits the limit -/
+theorem assemble_traces (K : List (Bytes × List Bytes)) (S : List SpanRow) (n : Nat) (hnd : (K.map (·.1)).Nodup) (hlen : K.length ≤ n)
+    (hcover : ∀ k ∈ K, ∃ v ∈ k.2, ∃ s ∈ S, s.traceId = k.1 ∧ s.spanId = v) (t : Bytes) :
+    t ∈ (assemble K S (some n)).map (·.traceId) ↔ t ∈ K.map (·.1) := by
+  rw [assemble_eq]
+  simp only
+  generalize hkeys : dedup ((keptSpans K S).map (·.traceId)) = keys
+  have hkmem : ∀ x, x ∈ keys ↔ ∃ s ∈ keptSpans K S, s.traceId = x := by
+    intro x; rw [← hkeys, mem_dedup, List.mem_map]
+  have hksub : ∀ x ∈ keys, x ∈ K.map (·.1) := by
+    intro x hx
+    obtain ⟨s, hs, rfl⟩ := (hkmem x).mp hx
+    exact ((mem_keptSpans K S s).mp hs).2.1
+  have hklen : keys.length ≤ n := by
+    have := nodup_subset_length keys (K.map (·.1)) (by rw [← hkeys]; exact nodup_dedup _) hksub
+    simp at this; omega
+  have hslen : (sortBy (fun a b : TraceOut => decide (b.start ≤ a.start)) (keys.map (outOf K S))).length ≤ n := by
+    rw [(ListAux.sortBy_perm _ _).length_eq]; simpa using hklen
+  rw [List.take_of_length_le hslen, List.mem_map]
+  constructor
+  · rintro ⟨out, hout, rfl⟩
+    obtain ⟨x, hx, rfl⟩ := List.mem_map.mp ((ListAux.mem_sortBy _ _ _).mp hout)
+    exact hksub x hx
+  · intro ht
+    obtain ⟨k, hk, rfl⟩ := List.mem_map.mp ht
+    obtain ⟨v, hv, s, hs, hst, hsv⟩ := hcover k hk
+    have : s ∈ keptSpans K S := (mem_keptSpans K S s).mpr ⟨hs, by rw [hst]; exact ht, k, hk, hst.symm, by rw [hsv]; exact hv⟩
+    have hkk : k.1 ∈ keys := (hkmem k.1).mpr ⟨s, this, hst⟩
+    exact ⟨outOf K S k.1, (ListAux.mem_sortBy _ _ _).mpr (List.mem_map.mpr ⟨k.1, hkk, rfl⟩), rfl⟩
+
+/-- every index span has its row in the span table -/
+def SpansCover (d : TraceDb) : Prop :=
+  ∀ a ∈ d.attrs, ∃ s ∈ d.spansT, s.traceId = a.traceId ∧ s.spanId = a.spanId
+
+theorem traceSpans_index (o : Oracles) (ao : AggOracles) (c : Ctx) (d : TraceDb) (script : Script) (tr v : Bytes)
+    (h : v ∈ traceSpans o ao c d script tr) : ∃ a ∈ d.attrs, a.traceId = tr ∧ a.spanId = v := by
+  simp only [traceSpans, List.mem_flatMap] at h
+  obtain ⟨s, _, hv⟩ := h
+  unfold selSpans at hv
+  cases he : s.attrs with
+  | none => rw [he] at hv; simp at hv
+  | some e =>
+    rw [he] at hv
+    obtain ⟨k, hk, rfl⟩ := List.mem_map.mp hv
+    simp only [matchedSpans, List.mem_filter, Bool.and_eq_true, beq_iff_eq] at hk
+    obtain ⟨hks, hkt, _⟩ := hk
+    simp only [spans, mem_dedup, List.mem_map, List.mem_filter] at hks
+    obtain ⟨a, ⟨ha, _⟩, hak⟩ := hks
+    exact ⟨a, ha, by rw [← hkt, ← hak]; rfl, by rw [← hak]; rfl⟩
+
+/-! ### one portion statement, and the loop -/
+theorem DurConsistent.filter {d : TraceDb} (h : DurConsistent d) (p : AttrRow → Bool) :
+    DurConsistent { d with attrs := d.attrs.filter p } :=
+  fun a ha b hb hab => h a (List.mem_filter.mp ha).1 b (List.mem_filter.mp hb).1 hab
+
+theorem TsConsistent.filter {d : TraceDb} (h : TsConsistent d) (p : AttrRow → Bool) :
+    TsConsistent { d with attrs := d.attrs.filter p } :=
+  fun a ha b hb hab => h a (List.mem_filter.mp ha).1 b (List.mem_filter.mp hb).1 hab
+
+theorem portion_eq_restrict (d : TraceDb) (hash : Bytes → Nat) (n i : Nat) (cached : List Bytes) :
+    d.portion hash n i cached = d.restrict (fun tr => hash tr % n == i || cached.contains tr) := rfl
+
+theorem restrict_traceId (d : TraceDb) (φ : Bytes → Bool) (tr : Bytes) (h : tr ∈ (d.restrict φ).attrs.map (·.traceId)) : φ tr = true := by
+  obtain ⟨a, ha, rfl⟩ := List.mem_map.mp h
+  exact (List.mem_filter.mp ha).2
+
+section
+variable (o : Oracles) (ao : AggOracles) (hp : PermInv ao) (c : Ctx) (d : TraceDb) (hash : Bytes → Nat) (idText : Bytes → String)
+  (hinj : ∀ a b, idText a = idText b → a = b) (N : Nat) (hN : 0 < N)
+  (hcons : DurConsistent (d.withPortionCols hash idText N)) (hts : TsConsistent (d.withPortionCols hash idText N))
+  (script : Script) (hok : ∀ p ∈ script, SelOk p.1) (hlim : 0 < c.limit) (htab : TablesDistinct c)
+include hp hinj hN hcons hts hok hlim htab
+
+/-- **one portion statement**: the statement of portion `i` with the cached trace ids `cachedIds` returns `assemble` of a
+    choice of the `limit` most recent among the described traces that are in portion `i` or cached — described, recency and
+    selected spans all read on the WHOLE index -/
+theorem portion_statement (i : Nat) (cachedIds : List Bytes) (hsub : ∀ t ∈ cachedIds, d.traceIds.contains t = true)
+    (outs : List TraceOut)
+    (h : stmtRows o ao (d.withPortionCols hash idText N) script (portionCtx c N i (cachedIds.map idText)) = .ok outs) :
+    ∃ K : List (Bytes × List Bytes),
+      IsTopN (traceRec o ao c (d.withPortionCols hash idText N) script)
+        (fun tr => traceMatches o ao c (d.withPortionCols hash idText N) script tr = true ∧ (hash tr % N == i || cachedIds.contains tr) = true)
+        c.limit.toNat (K.map (·.1)) ∧
+      (∀ k ∈ K, SpanSetOk (traceSpans o ao c (d.withPortionCols hash idText N) script k.1)
+        (scriptL (fun s tr => selMatches o ao c (d.withPortionCols hash idText N) s tr)
+          (fun s tr => [selSpans o c (d.withPortionCols hash idText N) s tr]) script k.1) k.2) ∧
+      outs = assemble K (d.withPortionCols hash idText N).spansT (some c.limit.toNat) := by
+  generalize hdv : d.withPortionCols hash idText N = dv at *
+  simp only [stmtRows, bind, Except.bind] at h
+  cases hpl : plan (portionCtx c N i (cachedIds.map idText)) script with
+  | error e => simp [hpl] at h
+  | ok S =>
+    simp only [hpl, pure, Except.pure, Except.ok.injEq] at h
+    have hseen : dv.seen o (portionCtx c N i (cachedIds.map idText)) = dv.restrict (fun tr => hash tr % N == i || cachedIds.contains tr) := by
+      rw [← hdv, seen_portion o c d hash idText hinj N i hN cachedIds hsub]; rfl
+    have hcons' : DurConsistent (dv.seen o (portionCtx c N i (cachedIds.map idText))) := by
+      rw [hseen]; exact hcons.filter _
+    have hts' : TsConsistent (dv.seen o (portionCtx c N i (cachedIds.map idText))) := by
+      rw [hseen]; exact hts.filter _
+    obtain ⟨K, hK, hspans, hrows⟩ := plan_rows o ao hp (portionCtx c N i (cachedIds.map idText)) dv hcons' hts' script S hpl hok hlim
+      ⟨htab.t1, htab.t2, htab.t3, htab.t4⟩
+    rw [hseen] at hK hspans
+    have hφ : ∀ k ∈ K, (hash k.1 % N == i || cachedIds.contains k.1) = true := by
+      intro k hk
+      have := hK.sound k.1 (List.mem_map.mpr ⟨k, hk, rfl⟩)
+      exact restrict_traceId dv _ k.1 (traceMatches_traceId o ao _ _ script k.1 this)
+    refine ⟨K, ?_, ?_, ?_⟩
+    · refine IsTopN.congrOn (rec' := traceRec o ao c (dv.restrict (fun tr => hash tr % N == i || cachedIds.contains tr)) script) hK ?_ ?_
+      · intro t
+        constructor
+        · intro ht
+          have hφt := restrict_traceId dv _ t (traceMatches_traceId o ao _ _ script t ht)
+          exact ⟨by rw [← traceMatches_restrict o ao c dv (fun tr => hash tr % N == i || cachedIds.contains tr) script t hφt]; exact ht, hφt⟩
+        · rintro ⟨ht, hφt⟩
+          show traceMatches o ao c (dv.restrict (fun tr => hash tr % N == i || cachedIds.contains tr)) script t = true
+          rw [traceMatches_restrict o ao c dv (fun tr => hash tr % N == i || cachedIds.contains tr) script t hφt]; exact ht
+      · rintro t ⟨_, hφt⟩
+        exact traceRec_restrict o ao c dv (fun tr => hash tr % N == i || cachedIds.contains tr) script t hφt
+    · intro k hk
+      have := hspans k hk
+      have e1 : traceSpans o ao (portionCtx c N i (cachedIds.map idText)) (dv.restrict (fun tr => hash tr % N == i || cachedIds.contains tr)) script k.1 =
+          traceSpans o ao c dv script k.1 := traceSpans_restrict o ao c dv (fun tr => hash tr % N == i || cachedIds.contains tr) script k.1 (hφ k hk)
+      have e2 : scriptL (fun s tr => selMatches o ao (portionCtx c N i (cachedIds.map idText)) (dv.restrict (fun tr => hash tr % N == i || cachedIds.contains tr)) s tr)
+            (fun s tr => [selSpans o (portionCtx c N i (cachedIds.map idText)) (dv.restrict (fun tr => hash tr % N == i || cachedIds.contains tr)) s tr]) script k.1 =
+          scriptL (fun s tr => selMatches o ao c dv s tr) (fun s tr => [selSpans o c dv s tr]) script k.1 :=
+        scriptL_restrict o ao c dv (fun tr => hash tr % N == i || cachedIds.contains tr) _ _ script k.1 (hφ k hk)
+          (fun s => by
+            show [selSpans o c (dv.restrict (fun tr => hash tr % N == i || cachedIds.contains tr)) s k.1] = [selSpans o c dv s k.1]
+            rw [selSpans_restrict o c dv (fun tr => hash tr % N == i || cachedIds.contains tr) s k.1 (hφ k hk)])
+      rw [e1, e2] at this
+      exact this
+    · rw [← h]
+      exact filterMap_rowOut _ _ hrows
+end
+
 end Qryn.TraceQL
